@@ -1,0 +1,91 @@
+//go:build verif
+
+package json
+
+import (
+	"fmt"
+	"strings"
+
+	"github.com/hashicorp/hcl/v2"
+)
+
+// Read-only exports used by the external verification harness (build tag
+// "verif"). With the tag off this file is not compiled.
+
+// VerifToken is the exported image of a scanner token.
+type VerifToken struct {
+	Type  rune
+	Bytes []byte
+	Range hcl.Range
+}
+
+// VerifScan runs the JSON scanner.
+func VerifScan(buf []byte, start hcl.Pos) []VerifToken {
+	toks := scan(buf, pos{Filename: "", Pos: start})
+	ret := make([]VerifToken, len(toks))
+	for i, t := range toks {
+		ret[i] = VerifToken{Type: rune(t.Type), Bytes: t.Bytes, Range: t.Range}
+	}
+	return ret
+}
+
+// VerifParseExpression parses a stand-alone JSON expression and returns a
+// textual dump of the syntax tree: strings as hex, numbers in exact decimal
+// text ('f', -1), so that an external model can be compared with it.
+func VerifParseExpression(src []byte) (string, hcl.Diagnostics) {
+	n, diags := parseExpression(src, "", hcl.Pos{Byte: 0, Line: 1, Column: 1})
+	return verifDump(n), diags
+}
+
+// VerifDumpExpr dumps the syntax tree behind an expression returned by this
+// package ("" for foreign expression types).
+func VerifDumpExpr(e hcl.Expression) string {
+	if x, ok := e.(*expression); ok {
+		return verifDump(x.src)
+	}
+	return ""
+}
+
+func verifDump(n node) string {
+	var sb strings.Builder
+	verifDumpTo(&sb, n)
+	return sb.String()
+}
+
+func verifDumpTo(sb *strings.Builder, n node) {
+	switch tn := n.(type) {
+	case *objectVal:
+		sb.WriteString("(obj")
+		for _, a := range tn.Attrs {
+			fmt.Fprintf(sb, " (%x ", []byte(a.Name))
+			verifDumpTo(sb, a.Value)
+			sb.WriteString(")")
+		}
+		sb.WriteString(")")
+	case *arrayVal:
+		sb.WriteString("(arr")
+		for _, v := range tn.Values {
+			sb.WriteString(" ")
+			verifDumpTo(sb, v)
+		}
+		sb.WriteString(")")
+	case *booleanVal:
+		if tn.Value {
+			sb.WriteString("true")
+		} else {
+			sb.WriteString("false")
+		}
+	case *numberVal:
+		fmt.Fprintf(sb, "(num %s)", tn.Value.Text('f', -1))
+	case *stringVal:
+		fmt.Fprintf(sb, "(str %x)", []byte(tn.Value))
+	case *nullVal:
+		sb.WriteString("null")
+	case invalidVal:
+		sb.WriteString("invalid")
+	case nil:
+		sb.WriteString("nil")
+	default:
+		fmt.Fprintf(sb, "(unknown %T)", n)
+	}
+}
